@@ -46,7 +46,7 @@ func (m *C05) Tx(w *world.World, e *world.TxEvent) {
 	if e.OK {
 		switch msg := e.Msg.(type) {
 		case *saotypes.MsgStore:
-			if id, ok := world.AttrU64(e.Marks, "new-order", "order-id"); ok {
+			if id, ok := world.NewOrderID(e); ok {
 				o := &c05Order{id: id, dataId: msg.Proposal.DataId, charged: sdk.ZeroInt(), shards: map[uint64]bool{}, op: msg.Proposal.Operation}
 				for _, t := range e.Transfers {
 					if t.To == mon.AddrOrder {
